@@ -54,6 +54,77 @@ func envInt(name string, def int) int {
 	return def
 }
 
+// oneOut is the result of executing one plan in its own process.
+type oneOut struct {
+	Findings []Finding      `json:"findings"`
+	Evals    int            `json:"evaluations"`
+	Distinct []string       `json:"distinct"`
+	Probes   map[string]int `json:"probes"`
+}
+
+// TestOne executes exactly one plan. Every plan runs in a process of its own:
+// goroutines blocked on nil channels can never exit, and what earlier plans
+// left behind would otherwise be part of later dumps (hidden state that a
+// replay in a fresh process does not have).
+func TestOne(t *testing.T) {
+	if os.Getenv("LIVESIM_MODE") != "one" {
+		t.Skip()
+	}
+	b, err := os.ReadFile(os.Getenv("LIVESIM_CASE"))
+	if err != nil {
+		t.Fatal(err)
+	}
+	var p Plan
+	if err := json.Unmarshal(b, &p); err != nil {
+		t.Fatal(err)
+	}
+	c := newChecker()
+	runPlan(t, &p, c)
+	o := oneOut{Findings: c.findings, Evals: c.evals, Probes: c.probes}
+	for k := range c.distinct {
+		o.Distinct = append(o.Distinct, k)
+	}
+	sort.Strings(o.Distinct)
+	ob, _ := json.Marshal(o)
+	if err := os.WriteFile(os.Getenv("LIVESIM_OUT"), ob, 0o644); err != nil {
+		t.Fatal(err)
+	}
+}
+
+// execPlan runs one plan in a fresh process of this test binary.
+func execPlan(p *Plan) (*oneOut, error) {
+	self, _ := os.Executable()
+	f, err := os.CreateTemp("", "livesim-plan-*.json")
+	if err != nil {
+		return nil, err
+	}
+	defer os.Remove(f.Name())
+	json.NewEncoder(f).Encode(p)
+	f.Close()
+	of := f.Name() + ".out"
+	defer os.Remove(of)
+	cmd := exec.Command(self, "-test.run=^TestOne$", "-test.timeout=10m")
+	cmd.Env = append(os.Environ(), "LIVESIM_MODE=one", "LIVESIM_CASE="+f.Name(), "LIVESIM_OUT="+of, "GOMAXPROCS=2")
+	ob, err := cmd.CombinedOutput()
+	b, rerr := os.ReadFile(of)
+	if rerr != nil {
+		// the process died (a crash of the runtime or an unrecovered panic of the
+		// library in another goroutine): that is a finding, not infrastructure
+		if err != nil {
+			return &oneOut{Findings: []Finding{{Clause: "C20.panic", Msg: "the process executing the plan died: " + err.Error() + ": " + tail(string(ob), 1500)}}, Probes: map[string]int{}}, nil
+		}
+		return nil, rerr
+	}
+	var o oneOut
+	if err := json.Unmarshal(b, &o); err != nil {
+		return nil, err
+	}
+	if o.Probes == nil {
+		o.Probes = map[string]int{}
+	}
+	return &o, nil
+}
+
 func TestWorker(t *testing.T) {
 	if os.Getenv("LIVESIM_MODE") != "worker" {
 		t.Skip()
@@ -66,27 +137,27 @@ func TestWorker(t *testing.T) {
 	for i := off; i < runs; i += stride {
 		r := core.NewRng(core.Mix(seed, "C20", uint64(i)))
 		p := GenPlan(r, seed, uint64(i))
-		c := newChecker()
-		runPlan(t, p, c)
-		out.Runs++
-		out.Evals += c.evals
-		out.Steps += len(p.Steps)
-		for k := range c.distinct {
-			out.Distinct = append(out.Distinct, k)
+		o, err := execPlan(p)
+		if err != nil {
+			t.Fatal(err)
 		}
-		for k, v := range c.probes {
+		out.Runs++
+		out.Evals += o.Evals
+		out.Steps += len(p.Steps)
+		out.Distinct = append(out.Distinct, o.Distinct...)
+		for k, v := range o.Probes {
 			out.Probes[k] += v
 		}
-		fmt.Fprintf(&dig, "%d:%d:%d:%d;", i, r.Draws, len(p.Steps), len(c.findings))
+		fmt.Fprintf(&dig, "%d:%d:%d:%d;", i, r.Draws, len(p.Steps), len(o.Findings))
 		if len(out.Samples) < 1 {
 			out.Samples = append(out.Samples, map[string]any{"plan_steps": p.Steps[:min(len(p.Steps), 12)], "total_steps": len(p.Steps)})
 		}
-		for _, f := range c.findings {
+		for _, f := range o.Findings {
 			if seenClause[f.Clause] {
 				continue
 			}
 			seenClause[f.Clause] = true
-			minp := shrinkPlan(t, p, f.Clause)
+			minp := shrinkPlan(p, f.Clause)
 			out.Findings = append(out.Findings, foundCase{Finding: f, Plan: minp, Original: len(p.Steps)})
 		}
 	}
@@ -98,8 +169,8 @@ func TestWorker(t *testing.T) {
 	}
 }
 
-func hasClause(c *checker, clause string) bool {
-	for _, f := range c.findings {
+func hasClause(fs []Finding, clause string) bool {
+	for _, f := range fs {
 		if f.Clause == clause {
 			return true
 		}
@@ -107,18 +178,18 @@ func hasClause(c *checker, clause string) bool {
 	return false
 }
 
-// shrinkPlan drops steps while the same clause keeps failing.
-func shrinkPlan(t *testing.T, p *Plan, clause string) *Plan {
+// shrinkPlan drops steps while the same clause keeps failing; every candidate
+// runs in a fresh process, like the original.
+func shrinkPlan(p *Plan, clause string) *Plan {
 	cur := &Plan{Seed: p.Seed, Run: p.Run, Steps: append([]Step(nil), p.Steps...)}
 	evals := 0
 	for chunk := len(cur.Steps) / 2; chunk >= 1; chunk /= 2 {
-		for i := 0; i+chunk <= len(cur.Steps) && evals < 120; {
+		for i := 0; i+chunk <= len(cur.Steps) && evals < 40; {
 			cand := &Plan{Seed: p.Seed, Run: p.Run}
 			cand.Steps = append(append([]Step{}, cur.Steps[:i]...), cur.Steps[i+chunk:]...)
-			c := newChecker()
-			runPlan(t, cand, c)
+			o, err := execPlan(cand)
 			evals++
-			if hasClause(c, clause) {
+			if err == nil && hasClause(o.Findings, clause) {
 				cur = cand
 			} else {
 				i += chunk
@@ -161,7 +232,7 @@ func TestReplay(t *testing.T) {
 	for _, f := range c.findings {
 		fmt.Printf("replay: %s: %s\n", f.Clause, f.Msg)
 	}
-	if hasClause(c, rf.Clause) {
+	if hasClause(c.findings, rf.Clause) {
 		fmt.Printf("REPRODUCED property=C20 clause=%s\n", rf.Clause)
 		t.Fail()
 		return
